@@ -90,6 +90,7 @@ type c05JV struct {
 	T string  `json:"t"`           // null num str bool obj arr
 	S string  `json:"s,omitempty"` // number text or string content
 	B bool    `json:"b,omitempty"`
+	N int     `json:"n,omitempty"` // "rep": an array of N elements cycling through L; "lstr": a string of N bytes repeating S
 	M []c05KV `json:"m,omitempty"` // object members in order (duplicates possible)
 	L []c05JV `json:"l,omitempty"`
 }
@@ -105,6 +106,46 @@ func c05Bool(b bool) c05JV    { return c05JV{T: "bool", B: b} }
 func c05Null() c05JV          { return c05JV{T: "null"} }
 func c05Obj(m ...c05KV) c05JV { return c05JV{T: "obj", M: m} }
 func c05Arr(l ...c05JV) c05JV { return c05JV{T: "arr", L: l} }
+
+// expand replaces the compact big-value nodes ("rep", "lstr": megabytes are never
+// stored in a case) by ordinary arrays and strings.
+func (v c05JV) expand() c05JV {
+	switch v.T {
+	case "lstr":
+		pat := v.S
+		if pat == "" {
+			pat = "a"
+		}
+		return c05Str(strings.Repeat(pat, v.N/len(pat)+1)[:v.N])
+	case "rep":
+		pats := make([]c05JV, len(v.L))
+		for i := range v.L {
+			pats[i] = v.L[i].expand()
+		}
+		l := make([]c05JV, v.N)
+		for i := range l {
+			if len(pats) > 0 {
+				l[i] = pats[i%len(pats)]
+			} else {
+				l[i] = c05Null()
+			}
+		}
+		return c05JV{T: "arr", L: l}
+	case "arr":
+		l := make([]c05JV, len(v.L))
+		for i := range v.L {
+			l[i] = v.L[i].expand()
+		}
+		return c05JV{T: "arr", L: l}
+	case "obj":
+		m := make([]c05KV, len(v.M))
+		for i := range v.M {
+			m[i] = c05KV{K: v.M[i].K, V: v.M[i].V.expand()}
+		}
+		return c05JV{T: "obj", M: m}
+	}
+	return v
+}
 
 func (v *c05JV) lookup(k string) []*c05JV {
 	var out []*c05JV
@@ -153,7 +194,9 @@ func c05Spell(words []string, i int, style string) string {
 		return strings.Join(words, "-") + idx
 	case "lower":
 		return strings.Join(words, "") + idx
-	case "hdr": // Title-Kebab, the canonical MIME header form
+	case "odd": // keys outside [A-Za-z0-9_-]: blanks, format verbs, glob/regexp/shell specials, multi-byte
+		// (not "." = nested lookup, "," "(" "[" "\\" = tag grammar, "=" "|" = option grammar)
+		return c05OddKeys[(len(words[0])*7+len(words)*3+i)%len(c05OddKeys)] + idx
 		ws := make([]string, len(words))
 		for j, w := range words {
 			ws[j] = c05Title(w)
@@ -235,7 +278,20 @@ var c05Scalars = map[string]reflect.Type{
 	"uint": reflect.TypeOf(uint(0)), "uint8": reflect.TypeOf(uint8(0)), "uint16": reflect.TypeOf(uint16(0)),
 	"uint32": reflect.TypeOf(uint32(0)), "uint64": reflect.TypeOf(uint64(0)),
 	"float32": reflect.TypeOf(float32(0)), "float64": reflect.TypeOf(float64(0)),
-	"dur": reflect.TypeOf(time.Duration(0)),
+	"dur":  reflect.TypeOf(time.Duration(0)),
+	"text": reflect.TypeOf(c05Text{}),
+}
+
+// c05Text: a field type with a user callback (encoding.TextUnmarshaler). It stores the
+// text, and refuses text that starts with "!".
+type c05Text struct{ V string }
+
+func (t *c05Text) UnmarshalText(b []byte) error {
+	if strings.HasPrefix(string(b), "!") {
+		return fmt.Errorf("c05Text: refused %q", b)
+	}
+	t.V = string(b)
+	return nil
 }
 
 func c05IsInt(k string) bool   { return strings.HasPrefix(k, "int") }
@@ -257,6 +313,8 @@ func c05Bits(k string) int {
 	}
 	return 64
 }
+
+var c05OddKeys = []string{"user name", "ключ", "k%d", "%s", "a*b?", "k:v", "ünï", "{x}", "$k", "a/b", "~", "^a$", "x;y&z", "emoji😀", "q'uote", "tab\tkey", strings.Repeat("long", 64)}
 
 // c05IntRange returns the inclusive value range of an integer kind.
 func c05IntRange(k string) (lo, hi *big.Int) {
@@ -329,12 +387,16 @@ func c05TypDepth(t *c05Typ) int {
 
 // ---- rendering ----
 
+var c05QuoteRepl = strings.NewReplacer("\u007f", `\u007f`, "\ufeff", `\ufeff`, "\u0085", `\u0085`)
+
+// c05Quote: a JSON string literal that is also a valid YAML double-quoted scalar (DEL, BOM
+// and NEL are escaped: yaml.v2 refuses them raw).
 func c05Quote(s string) string {
 	b, err := json.Marshal(s)
 	if err != nil {
 		panic(err)
 	}
-	return string(b)
+	return c05QuoteRepl.Replace(string(b))
 }
 
 func (v *c05JV) json(b *strings.Builder) {
@@ -555,7 +617,10 @@ func c05FromAny(v any) c05JV {
 func c05Sprint(v reflect.Value) string {
 	b, err := json.Marshal(v.Interface())
 	if err != nil {
-		return fmt.Sprintf("%+v", v.Interface())
+		b = []byte(fmt.Sprintf("%+v", v.Interface()))
+	}
+	if len(b) > 3000 {
+		return fmt.Sprintf("%s ... (%d bytes) ... %s", b[:1500], len(b), b[len(b)-300:])
 	}
 	return string(b)
 }
